@@ -248,8 +248,11 @@ impl Request {
             if len == BUF_SIZE {
                 return Err(Response::RequestHeaderFieldsTooLarge())
             }
+            #[cfg(ohkami_verif)] crate::__verif::emit("read-start", len, 1);
             match stream.read(&mut self.__buf__[len..]).await {
                 Ok(0) | Err(_) => return Ok(None),
+                #[cfg(ohkami_verif)]
+                Ok(n) => {crate::__verif::emit("read", n, 1); len += n}
                 Ok(n) => len += n
             }
         }
